@@ -71,6 +71,58 @@ def symmetric_case(draw, tier):
     return {"model": spec, "dl": dl, "il": il, "dc": [], "extra": extra}
 
 
+@st.composite
+def wide_assume_case(draw, tier):
+    spec = draw(S.wide_spec())
+    lv = oracle.spec_leaves(spec)
+    ids = sorted(lv)
+    chosen = set(draw(st.lists(st.integers(0, len(ids) - 1), max_size=3, unique=True)))
+    dl, il = [], []
+    for j, i in enumerate(ids):
+        lo, hi = lv[i]
+        a = draw(st.sampled_from([lo, hi, hi])) if draw(st.booleans()) else draw(st.integers(lo, hi))
+        dl.append([draw(st.sampled_from([1, 2, 3, 4])) if j in chosen else 0, a, draw(st.integers(a, hi))])
+        x = draw(st.sampled_from([lo, hi, hi])) if draw(st.booleans()) else draw(st.integers(lo, hi))
+        il.append([draw(st.sampled_from([1, 1, 1, 1, 2, 0])), x, hi])
+    dc = [list(t_) for t_ in draw(st.lists(st.tuples(st.integers(0, 30), st.integers(0, 1), st.integers(0, 2)), max_size=2))]
+    extra = draw(st.lists(st.lists(st.integers(0, 70000), min_size=len(ids), max_size=len(ids)), min_size=6, max_size=8))
+    return {"model": spec, "dl": dl, "il": il, "dc": dc, "extra": extra}
+
+
+@st.composite
+def siblings_case(draw, tier):
+    """a node with 3-5 compound children (explicit and generated ids, so that settled and open ones interleave in id
+    order in every pattern); the assumption settles a subset of those children by id"""
+    leaves = [{"k": "leaf", "id": i, "b": [0, 1]} for i in ["a1", "a2", "b1", "b2", "c1", "c2", "d1", "d2", "e1", "e2"]]
+    k = draw(st.integers(3, 5))
+    kids = []
+    for j in range(k):
+        ch = leaves[2 * j:2 * j + 2]
+        if draw(st.integers(0, 3)) == 0:
+            ch = ch + [{"k": "leaf", "id": "t%d" % j, "b": [-1, 2]}]
+        kid = {"k": draw(st.sampled_from(["All", "Any", "AtMost", "AtLeast"])), "id": draw(st.sampled_from(["K%d" % j, "K%d" % j, None])), "c": ch}
+        if kid["k"] == "AtMost":
+            kid["v"] = 1
+        if kid["k"] == "AtLeast":
+            kid["v"], kid["s"] = draw(st.integers(1, 2)), 1
+        kids.append(kid)
+    if draw(st.booleans()):
+        kids.append(leaves[-1])
+    parent_kind = draw(st.sampled_from(["AtLeast", "AtLeast", "All", "Any", "AtMost"]))
+    spec = {"k": parent_kind, "id": draw(st.sampled_from(["M", None])), "c": kids}
+    if parent_kind == "AtLeast":
+        spec["v"], spec["s"] = draw(st.integers(1, len(kids))), draw(st.sampled_from([1, None]))
+    elif parent_kind == "AtMost":
+        spec["v"] = draw(st.integers(0, len(kids)))
+    lv = oracle.spec_leaves(spec)
+    ids = sorted(lv)
+    dl = [[0, lv[i][0], lv[i][0]] for i in ids]
+    il = [[1, draw(st.integers(lv[i][0], lv[i][1])), lv[i][1]] for i in ids]
+    dc = [list(t_) for t_ in draw(st.lists(st.tuples(st.integers(0, 30), st.integers(0, 1), st.integers(0, 2)), min_size=1, max_size=3))]
+    extra = draw(st.lists(st.lists(st.integers(0, 70000), min_size=len(ids), max_size=len(ids)), min_size=6, max_size=8))
+    return {"model": spec, "dl": dl, "il": il, "dc": dc, "extra": extra}
+
+
 def _val(mode, a, b):
     import numpy as np
     import puan
@@ -188,5 +240,5 @@ def _show(d):
 
 
 def parts(tier):
-    return [Part("assume", strategy=lambda t: case_strategy(t), check=check, quick=(8, 300), thorough=(16, 2500)),
+    return [Part("compound_siblings", strategy=lambda t: siblings_case(t), check=check, quick=(2, 250), thorough=(4, 3000))] + [Part("wide_nodes", strategy=lambda t: wide_assume_case(t), check=check, quick=(2, 150), thorough=(4, 2000))] + [Part("assume", strategy=lambda t: case_strategy(t), check=check, quick=(8, 300), thorough=(16, 2500)),
             Part("symmetric", strategy=lambda t: symmetric_case(t), check=check, quick=(3, 300), thorough=(6, 2500))]
